@@ -48,6 +48,11 @@ CLAIMED = {
    note="time.Sleep is trusted; dependence slices over-approximate (a missing dependence is definite); E3-A assumptions as for C08.",
    technique="static analysis: dominance/control rules + dependence slices over SSA, interval rule on divisors",
    ref="DESIGN.md §3 C09"),
+ "C10": dict(
+   text="Static analysis of structural necessary conditions: the licence handler and the encryptor derive the key from the key id through the same function, whose constants no other function uses, and the stored key is derived from the key id stored beside it; the key id in the MPD and in the init segment come from the same derivation, which either provably ignores its argument or gets the same source at both sites; the CPIX content key is selected at all three sites (MPD, init, fragments) through the same lookup keyed by the content type of the object being processed, never the reference representation's; every fragment encryption and on-the-fly init protection is dominated by a non-nil test of the representation's encryption data and every ContentProtection element by the pre-encrypted test. Decrypting to the clear segment is not decided.",
+   note="'ignores its argument' is decided by an over-approximating slice (library state objects modelled through their method calls, copy/stores into local slices followed); mp4ff trusted.",
+   technique="static analysis: dependence slices over SSA (sibling agreement on callee identity and argument sources), who-may-use rule on constants, dominance rule on encryption calls",
+   ref="DESIGN.md §3 C10"),
  "C18": dict(
    text="Static analysis (SSA control-flow walk + range/guard analysis) of two structural necessary conditions: every callback/read error is returned on all non-nil paths, and the box-walk cursor provably advances and cannot wrap. Decides those clauses for every input and read schedule; does not decide output equality.",
    note="Trusts go/types, go/ssa; VTA call graph for reachability; integer overflow only modelled where a rule says so.",
